@@ -240,11 +240,11 @@ theorem monitor_rules_eavesdrop : ∀ (texts : List Bytes) (rules : List MatchRu
 theorem gate_ignores_monitors (b : Bus) (s a p : Option ConnId) (m : Msg) :
     checkPolicy (shade b) s a p m = checkPolicy b s a p m := checkPolicy_shade b s a p m
 
-theorem others_observe_the_same_partial (b : Bus) (hc : MonClean b) (c : ConnId) (m : Msg) :
+theorem others_observe_the_same_partial (b : Bus) (c : ConnId) (m : Msg) :
     (route { bus := shade b } c m).1.out = (route { bus := b } c m).1.out ∧
     (route { bus := shade b } c m).2 = (route { bus := b } c m).2 ∧
     (route { bus := shade b } c m).1.bus = shade (route { bus := b } c m).1.bus := by
-  have h := shadow_route (t := { bus := b }) (t' := { bus := shade b }) ⟨rfl, rfl⟩ hc c m
+  have h := shadow_route (t := { bus := b }) (t' := { bus := shade b }) ⟨rfl, rfl⟩ c m
   exact ⟨h.1.2, h.2, h.1.1⟩
 
 theorem driver_sends_the_same_partial (b : Bus) (to : ConnId) (m : Msg) :
@@ -255,12 +255,12 @@ theorem driver_sends_the_same_partial (b : Bus) (to : ConnId) (m : Msg) :
 
 /-- a whole step of the bus for peer traffic (everything but calls to the bus driver): same ordinary output, same state
     up to shading -/
-theorem peer_traffic_step_ignores_monitors_partial (tbl : List IfaceRow) (b : Bus) (hc : MonClean b) (c : ConnId) (x : Conn) (m0 : Msg)
+theorem peer_traffic_step_ignores_monitors_partial (tbl : List IfaceRow) (b : Bus) (c : ConnId) (x : Conn) (m0 : Msg)
     (hx : b.conn? c = some x) (hmon : x.monitor = false) (hname : x.name.isSome = true)
     (hdest : ((strip m0).setSender (senderNameOf b c)).dest ≠ some BUS_NAME) :
     (step tbl (shade b) (.msg c m0)).out = (step tbl b (.msg c m0)).out ∧
     (step tbl (shade b) (.msg c m0)).bus = shade (step tbl b (.msg c m0)).bus :=
-  dispatch_peer_traffic_shade tbl b hc c x m0 hx hmon hname hdest
+  dispatch_peer_traffic_shade tbl b c x m0 hx hmon hname hdest
 
 /-- the side condition is what `BecomeMonitor` establishes: the new monitor is left without ordinary rules -/
 theorem new_monitor_has_no_rules (c : ConnId) (x : Conn) (rules : List MatchRule) (b : Bus) :
